@@ -83,7 +83,7 @@ fn judge_tree(t: &LTree, g: &AG, d: &Dump, m: &Map, input: &str, toks: &[(usize,
     errs
 }
 
-pub fn run_variant(g: &AG, spec: &SetSpec, wd: &Workdir, rep: &mut Rep, rng: &mut Rng, maxlen: usize, fixed: Option<(Vec<usize>, String, Vec<(usize, usize)>)>, family: u8, history: Option<Vec<String>>) {
+pub fn run_variant(g: &AG, spec: &SetSpec, wd: &Workdir, rep: &mut Rep, rng: &mut Rng, maxlen: usize, fixed: Option<(Vec<usize>, String, Vec<(usize, usize)>)>, family: u8, history: Option<Vec<String>>, fixed_foreign: Option<(usize, usize)>) {
     // family > 0: the grammar gets a user Layout rule (whitespace / comments) and inputs carry such layout
     let text = if family > 0 { crate::c14::grammar_text(g, family) } else { g.text() };
     let agj = g.to_json();
@@ -148,14 +148,38 @@ pub fn run_variant(g: &AG, spec: &SetSpec, wd: &Workdir, rep: &mut Rep, rng: &mu
             }
         }
     }
+    // a sample of the inputs again with a character that is neither whitespace nor part of any token
+    let mut foreigns: Vec<Option<(usize, usize)>> = vec![None; inputs.len()];
+    if fixed_foreign.is_some() {
+        foreigns[0] = fixed_foreign;
+    } else if history.is_none() {
+        let n0 = inputs.len();
+        for k in 0..n0 {
+            if rng.chance(0.12) {
+                let (w, input, toks) = &inputs[k];
+                let ic = crate::c_diff::with_foreign(input, w, toks, rng, family);
+                inputs.push((ic.w, ic.input, ic.toks));
+                foreigns.push(ic.foreign);
+            }
+        }
+    }
     let mut ok3 = false;
     let mut hangs = 0;
     let mut fresh: Vec<Option<Result<String, ()>>> = vec![None; inputs.len()];
     for (ix, (w, input, toks)) in inputs.iter().enumerate() {
-        let case = |extra: Value| json!({"grammar": text, "ag": agj, "settings": spec.to_json(), "family": family, "input": input, "tokens": w, "spans": toks.iter().map(|t| vec![t.1, t.2]).collect::<Vec<_>>(), "extra": extra});
+        let foreign = foreigns[ix];
+        let case = |extra: Value| json!({"grammar": text, "ag": agj, "settings": spec.to_json(), "family": family, "input": input, "tokens": w, "spans": toks.iter().map(|t| vec![t.1, t.2]).collect::<Vec<_>>(), "foreign": foreign.map(|f| vec![f.0, f.1]), "extra": extra});
         let sig = |k: &str| format!("{}:{}:{}:{}", k, fnv(&text), fnv(&spec.to_json().to_string()), fnv(input));
         crate::rep::watchdog::set(|| case(json!(null)).to_string());
         rep.count("evaluations", 1);
+        // only the tokens in front of a foreign character can be consumed
+        let toks: &[(usize, usize, usize)] = match foreign {
+            Some((_, j)) => &toks[..j],
+            None => &toks[..],
+        };
+        if foreign.is_some() {
+            rep.count("inputs_with_foreign_character", 1);
+        }
         let budget = 20_000 * (input.len() as u64 + 1);
         dynp::set_step_limit(budget);
         let off = guarded(|| dy_off.lr_parse(input));
@@ -175,6 +199,10 @@ pub fn run_variant(g: &AG, spec: &SetSpec, wd: &Workdir, rep: &mut Rep, rng: &mu
             continue;
         };
         fresh[ix] = Some(off.as_ref().map(|t| dynp::shown(t)).map_err(|_| ()));
+        if let (Ok(t), Some((at, _))) = (&off, foreign) {
+            rep.violation("C02", &sig("foreign-ok"), &format!("Ok although the input has {:?} at offset {}, which is neither layout nor part of a token", input[at..].chars().take(4).collect::<String>(), at), case(json!({"partial": false, "tree": dynp::shown(t)})));
+            continue;
+        }
         if let Ok(t) = &off {
             rep.count("ok_full", 1);
             if toks.len() >= 3 {
@@ -295,7 +323,8 @@ pub fn main(a: &Args) {
             )
         });
         let history = case["history"].as_array().map(|h| h.iter().map(|x| x.as_str().unwrap().to_string()).collect());
-        run_variant(&g, &spec, &wd, &mut rep, &mut rng, 5, fixed, case["family"].as_u64().unwrap_or(0) as u8, history);
+        let ff = case["foreign"].as_array().map(|f| (f[0].as_u64().unwrap() as usize, f[1].as_u64().unwrap() as usize));
+        run_variant(&g, &spec, &wd, &mut rep, &mut rng, 5, fixed, case["family"].as_u64().unwrap_or(0) as u8, history, ff);
         rep.finish();
         return;
     }
@@ -311,7 +340,15 @@ pub fn main(a: &Args) {
         } else {
             i += 1;
             let o = if i % 5 == 1 { BnfOpts { max_nt: 5, max_t: 4, max_alts: 4, max_len: 4, p_empty: 0.2 } } else { BnfOpts { p_empty: 0.2, ..BnfOpts::default() } };
-            let g = gen_bnf(&mut rng, &o);
+            let g = if i % 9 == 4 {
+                rep.count("lists_family_grammars", 1);
+                gen_lists(&mut rng)
+            } else if i % 40 == 7 {
+                rep.count("big_family_grammars", 1);
+                gen_big(&mut rng)
+            } else {
+                gen_bnf(&mut rng, &o)
+            };
             if !g.reduced() {
                 rep.count("grammars_not_reduced", 1);
                 continue;
@@ -326,7 +363,7 @@ pub fn main(a: &Args) {
             if family > 0 {
                 rep.count("variants_with_layout_rule", 1);
             }
-            run_variant(&ann, &spec, &wd, &mut rep, &mut rng, maxlen, None, family, None);
+            run_variant(&ann, &spec, &wd, &mut rep, &mut rng, maxlen, None, family, None, None);
         }
     }
     rep.finish();
